@@ -20,11 +20,86 @@ TRUST = (
 )
 
 CHECKS = {
+    "C01": dict(
+        technique="model-based operation histories (Hypothesis st.data-driven interpreter over the operation catalogue) with an independent validity audit after every step",
+        text="Generated programs of up to 12 (quick) / 30 (thorough) catalogue operations over all symmetries and both array kinds; every returned array is audited by a from-scratch validity predicate (signed sector totals with model arithmetic, block shapes, sorted positive tables, exact fuse bookkeeping, sign-table keys, label parity). Exploration of histories is the natural fit for a closure property quantified over operation sequences.",
+        ref="4/C01"),
+    "C02": dict(
+        technique="differential testing against numpy.tensordot/einsum/trace on an independent densification (Hypothesis, exact integer data)",
+        text="Generated operand pairs (all symmetries incl. Z4, mixed directions, independently sparse, real/complex/mixed dtype) contracted in all three modes, axes forms and dispatch routes and compared exactly with the dense contraction placed in the operands' free-leg tables; relisting of axis pairs on the same operands.",
+        ref="4/C02"),
+    "C03": dict(
+        technique="differential testing against an independent elementwise Z2-graded tensor algebra (inversion counting) plus exhaustive enumeration of small Z2 structures",
+        text="Fermionic transpose / tensordot (fused, blockwise, auto) / matmul / trace / einsum compared exactly with a graded dense oracle and a label model; products of odd tensors contracted with their conjugates; every Z2 structure with ranks <=3 enumerated completely in the thorough tier.",
+        ref="4/C03"),
+    "C04": dict(
+        technique="metamorphic testing: route independence of generated fermionic networks (Hypothesis)",
+        text="Networks of 2-4 tensors (9 topologies, dangling legs, odd tensors with distinct and conjugated labels, pending signs) contracted along a canonical and 1-4 drawn alternative routes (pair order, operand swap, relisting, pre-transposes, split / outer-product+einsum variants, scalar final step); final tensors compared exactly after fermionic re-ordering.",
+        ref="4/C04"),
+    "C05": dict(
+        technique="generated inputs with unique tags checked against the fused index's own sub-index tables, round trips, strategy differential; exhaustive enumeration of small structures",
+        text="Every element is located through the result's own extents (elementary-leg coordinates), so any layout that disagrees with the bookkeeping is caught; unfuse round trip exact; insert == concat == auto; cached == uncached; conj sibling; exhaustive over Z2/U1 rank<=3 structures, all ordered groupings and all sector subsets.",
+        ref="4/C05"),
+    "C06": dict(
+        technique="metamorphic testing: contraction vs fuse-then-contract vs contract-then-fuse; strategy differential (Hypothesis, exact)",
+        text="Three metamorphic laws over abelian and fermionic pairs with differing stored sectors and pre-fused free legs; results compared as tensors (dense / elementary-leg elements) and, for the strategies, as arrays including fuse bookkeeping and labels.",
+        ref="4/C06"),
+    "C07": dict(
+        technique="round-trip / invariant testing of generated arrays plus exhaustive enumeration of the axis-matching routine with a plan-validity predicate",
+        text="Reshape to merge/drop/expand targets and back on sparse arrays with charged size-one axes and pre-fused axes; calc_reshape_args checked for all 47655 shape/target pairs (<=5 axes, sizes {1,2,3,4,6}) in both directions plus expansion targets by simulating the returned plan.",
+        ref="4/C07"),
+    "C08": dict(
+        technique="differential testing against numpy on an independent densification: single operations, three call forms, and generated operation chains with a dense shadow",
+        text="Every listed structural / elementwise / arithmetic operation on abelian arrays and block vectors compared with numpy (returns the dense answer or raises; all call forms alike); chains of 2-6 operations tracked against a dense shadow after every step so multi-step defects are reachable.",
+        ref="4/C08"),
+    "C09": dict(
+        technique="model-based differential histories: lazy vs synchronised copy of the same tensor through the operation catalogue (Hypothesis)",
+        text="The same drawn operation history is applied to a lazily signed array and to its synchronised copy (partners synced); results must be equal after every step (decompositions through reconstruction and spectra), raising must agree, sync laws at the end; dedicated law for eigh / solve / qr / svd on generated lazy matrices.",
+        ref="4/C09"),
+    "C10": dict(
+        technique="oracle = squared norm from the harness' densification; metamorphic network routes (Hypothesis, exact integer data)",
+        text="<x|x> through conj and dagger in both operand orders for all-ket arrays or with the dual-leg option, for single arrays and products carrying several labels; networks conjugated tensor by tensor along drawn routes; involution and adjoint identities.",
+        ref="4/C10"),
+    "C11": dict(
+        technique="validity predicates on factors plus reconstruction through the library's contraction over generated matrices (direct and fused)",
+        text="QR / SVD / eigh / solve on generated matrices with tall, wide, square, 1x1 and exactly rank-deficient blocks, missing blocks, every direction pattern and charge, pending signs: orthonormality, triangularity, stabilised diagonal, bond structure, charges, reconstruction, residual.",
+        ref="4/C11"),
+    "C12": dict(
+        technique="differential testing against numpy.linalg (svd, eigvalsh, norm, solve) on the harness' densification",
+        text="Singular values as multisets, eigenvalues per charge, Frobenius norm (also mixed-dtype blocks) and solutions of well-conditioned systems compared with the dense results within a stated tolerance.",
+        ref="4/C12"),
+    "C13": dict(
+        technique="counting predicates computed from the untruncated spectrum with cutoffs derived from that spectrum (Hypothesis); exact-tie law",
+        text="For all six cutoff modes the cutoff is placed below / between / beyond the actual values or partial sums; kept counts, ordering, monotonicity, error == discarded weight, absorb equivalence and factor validity are checked; a dedicated law builds exact ties.",
+        ref="4/C13"),
+    "C14": dict(
+        technique="model-based histories with deep snapshots of every pool member and partner (Hypothesis); in-place vs out-of-place differential",
+        text="Results join the pool without copying (aliasing allowed), in-place rules act on shallow copies or directly on members; after every rule every other member must equal its byte-level snapshot and in-place results must equal out-of-place ones.",
+        ref="4/C14"),
+    "C15": dict(
+        technique="history differential against a cache bypass over families of near-identical arrays; deterministic sys.settrace thread scheduler with drawn switch points; subprocess environment enumeration",
+        text="Families differing in one attribute (incl. other symmetry with identical labels, pre-fused siblings, derived objects sharing memoised indices) run through fuse / reshape / fused contraction / svd under cache controls and compared with the same call inside a cache bypass; context-manager exit paths; 2-4 scheduled threads on shared operands vs sequential results.",
+        ref="4/C15"),
+    "C16": dict(
+        technique="agreement among constructors and with the model's brute-force sector set; dense projection oracle (Hypothesis)",
+        text="__init__, from_blocks, from_fill_fn, random, from_dense (arbitrary labelings) and utils.from_dense with omitted optional arguments; dense->blocks->dense equals mask + stable reorder; to_dense/from_dense round trip.",
+        ref="4/C16"),
     "C17": dict(
         technique="exhaustive enumeration of finite domains against an independent group model (itertools + 16 processes)",
-        text="Every group axiom is evaluated on the complete finite groups and on the stated U1 boxes; the sector enumerator is compared with a brute-force filter of the full product for every small array structure. Exhaustive inside the stated bounds, which is the strongest statement generated-input search can make for this finite-domain property.",
-        ref="4/C17",
-    ),
+        text="Every group axiom is evaluated on the complete finite groups and on the stated U1 boxes; the sector enumerator is compared with a brute-force filter of the full product for every small array structure, and across symmetries sharing labels in one process. Exhaustive inside the stated bounds.",
+        ref="4/C17"),
+    "C18": dict(
+        technique="differential testing against Jordan-Wigner matrices on Fock space (Hypothesis)",
+        text="Local operator elements vs vacuum expectation values for arbitrary terms and bases; array-level action on basis states of every charge compared with the Fock-space operator up to one common sign gauge (2-colouring), Hermiticity, spectrum, product law; built-in arrays vs documented formulas.",
+        ref="4/C18"),
+    "C19": dict(
+        technique="exhaustive enumeration of all graphs on <=4 sites plus generated graphs; oracle = lattice Hamiltonian on the full Fock space",
+        text="Each returned two-site array is lifted to the Fock space of all lattice modes and the sum compared with the Hamiltonian built from its definition; keys, bond names, directions and coordinations of the site description.",
+        ref="4/C19"),
+    "C20": dict(
+        technique="dtype table over the operation catalogue and exact value checks of zero-filling operations at single precision / complex / mixed dtypes (Hypothesis; ComplexWarning as error)",
+        text="Every block of every catalogue result must keep the data's dtype (real counterparts for spectra and norms); fuse in both strategies, to_dense, fill_missing_blocks, fused contraction and reshape on sparse data are compared exactly with the dense oracle so discarded imaginary parts or upcasts are caught.",
+        ref="4/C20"),
 }
 
 NOT_YET = "check not built yet in this revision (see DESIGN.md section 4 for the planned generator and oracle)"
